@@ -892,6 +892,11 @@ def norm(e):
             return ("un", "Not", norm(("bin", "Lt", b, a)))
         elif op == "Ne":
             return ("un", "Not", norm(("bin", "Eq", a, b)))
+        # unsigned x: `x < 1` is `x == 0`, `0 < x` is `x != 0`
+        if op == "Lt" and b[0] == "const" and b[1] == 1 and not isinstance(b[1], bool) and len(b) > 2 and b[2] in ("usize", "u64", "u32", "u16", "u8", "u128"):
+            return norm(("bin", "Eq", a, ("const", 0, b[2])))
+        if op == "Lt" and a[0] == "const" and a[1] == 0 and not isinstance(a[1], bool) and len(a) > 2 and a[2] in ("usize", "u64", "u32", "u16", "u8", "u128"):
+            return ("un", "Not", norm(("bin", "Eq", b, ("const", 0, a[2]))))
         if op == "Div" and b[0] == "const" and isinstance(b[1], int) and b[1] > 0 and (b[1] & (b[1] - 1)) == 0:
             op, b = "Shr", ("const", b[1].bit_length() - 1, b[2])
         if op == "Rem" and b[0] == "const" and isinstance(b[1], int) and b[1] > 0 and (b[1] & (b[1] - 1)) == 0:
@@ -1129,8 +1134,12 @@ def edge_literals(body, bi):
         return out
     # integer switch: atom Eq(d, v)
     for v, b in tg:
-        out.append((b, ("bin", "Eq", atom, ("const", v, t["ty"])), True))
-    out.append((t["o"], None, True))
+        out.append((b, norm(("bin", "Eq", atom, ("const", v, t["ty"]))), True))
+    if len(tg) == 1:
+        # `match x { 0 => .., _ => .. }`: the other arm knows x != 0
+        out.append((t["o"], norm(("bin", "Eq", atom, ("const", tg[0][0], t["ty"]))), False))
+    else:
+        out.append((t["o"], None, True))
     return out
 
 
